@@ -174,6 +174,7 @@ async fn scenario(g: &Group, rng: &mut StdRng, sc: usize, panics: &Arc<parking_l
 	let mut peer = Peer { ntok: 0, pushed: BTreeMap::new(), max_arr: 3, string_ids };
 	let mut unstarted: Vec<usize> = (0..g.ops.len()).collect();
 	let mut tasks = vec![];
+	let mut abandon: BTreeMap<String, tokio::sync::oneshot::Sender<()>> = BTreeMap::new();
 	let mut faulted = false;
 	let mut npeer = 0;
 	let menu_weighted: Vec<&str> = match g.name {
@@ -191,7 +192,15 @@ async fn scenario(g: &Group, rng: &mut StdRng, sc: usize, panics: &Arc<parking_l
 		if roll < 22 && !unstarted.is_empty() {
 			let i = unstarted.remove(rng.random_range(0..unstarted.len()));
 			let (h, k, n) = g.ops[i];
-			tasks.push(start_op(&rig, h, k, n, &slots));
+			let (jh, ab) = start_op_abandonable(&rig, h, k, n, &slots);
+			tasks.push(jh);
+			abandon.insert(h.to_string(), ab);
+		} else if roll < 25 && !abandon.is_empty() {
+			// the application gives a future up before it has returned (a timeout around the call, a select!)
+			let hs: Vec<String> = abandon.keys().cloned().collect();
+			let h = hs[rng.random_range(0..hs.len())].clone();
+			let _ = abandon.remove(&h).unwrap().send(());
+			settle(2).await;
 		} else if roll < 68 && !faulted && npeer < 12 {
 			// the peer says something
 			let m0 = match rng.random_range(0..10) {
@@ -329,6 +338,7 @@ async fn scenario(g: &Group, rng: &mut StdRng, sc: usize, panics: &Arc<parking_l
 		settle(rng.random_range(0..4)).await;
 	}
 	wind_down(&rig, &tracer, tasks, &slots, panics).await;
+	drop(abandon);
 	tracer.take()
 }
 
@@ -481,6 +491,7 @@ async fn scripted(g: &Group, rng: &mut StdRng, sc: usize, script: &Value, panics
 	let mut peer = Peer { ntok: 0, pushed: BTreeMap::new(), max_arr: 3, string_ids };
 	let mut tasks = vec![];
 	let mut started: Vec<String> = vec![];
+	let mut abandon: BTreeMap<String, tokio::sync::oneshot::Sender<()>> = BTreeMap::new();
 	let mut faulted = false;
 	// how eagerly the client is allowed to run between two steps of this script
 	let pace = rng.random_range(0..3);
@@ -491,7 +502,9 @@ async fn scripted(g: &Group, rng: &mut StdRng, sc: usize, script: &Value, panics
 				if let Some((h, k, n)) = g.ops.iter().find(|o| o.0 == h) {
 					if !started.iter().any(|x| x == h) {
 						started.push(h.to_string());
-						tasks.push(start_op(&rig, h, k, *n, &slots));
+						let (jh, ab) = start_op_abandonable(&rig, h, k, *n, &slots);
+						tasks.push(jh);
+						abandon.insert(h.to_string(), ab);
 						// the wire ids follow the order in which the futures are first polled: let this one take its id
 						settle(1).await;
 					}
@@ -524,6 +537,12 @@ async fn scripted(g: &Group, rng: &mut StdRng, sc: usize, script: &Value, panics
 				faulted = true;
 				inject(step["f"].as_str().unwrap(), &rig, &tracer);
 			}
+			"abandon" => {
+				if let Some(ab) = abandon.remove(step["h"].as_str().unwrap()) {
+					let _ = ab.send(());
+					settle(2).await;
+				}
+			}
 			"hold" => {
 				rig.faults.hold.store(true, std::sync::atomic::Ordering::SeqCst);
 				tracer.ev(json!({"ev": "Hold"}));
@@ -544,6 +563,7 @@ async fn scripted(g: &Group, rng: &mut StdRng, sc: usize, script: &Value, panics
 		}
 	}
 	wind_down(&rig, &tracer, tasks, &slots, panics).await;
+	drop(abandon);
 	tracer.take()
 }
 
